@@ -15,7 +15,8 @@ Mirrors, function by function and in the same order of checks:
   connection, call the handler, write the response, evict the old control connection, `UpdateAuth`);
 * `internal/protocol/session/client_registry.go`: `Register`, `UpdateAuth`, `Remove`/`removeConnectionLocked`.
 
-Crypto is symbolic: client `k` owns secret `k`; a response is `hmac key nonce | junk`; nonces are numbered in
+Crypto is symbolic: client `k` owns secret `Key.client k`; a response is `hmac key nonce | junk` where `key` may also
+be the empty string, the client's stored ciphertext bytes or its deprecated plaintext field; nonces are numbered in
 order of issue (trusted base: secrets pairwise distinct, nonces never repeat, HMAC collision free).
 Connections, clients, addresses and nonces are natural numbers; finite maps are total functions.
 -/
@@ -40,12 +41,21 @@ deriving DecidableEq, Repr
 inductive NRef | last (d : Nat) | prev (d : Nat)
 deriving DecidableEq, Repr
 
+/-- the key a response was computed under: the secret client `k` was given at registration, the empty key, the
+bytes of client `k`'s stored ciphertext, or the content of client `k`'s deprecated plaintext field.  Only
+`client k` is the secret that `Decrypt` yields for a `usable` client `k`. -/
+inductive Key | client (k : Nat) | empty | cipher (k : Nat) | plain (k : Nat)
+deriving DecidableEq, Repr
+
+/-- a numeral is the secret of that client -/
+instance (n : Nat) : OfNat Key n := ⟨.client n⟩
+
 /-- `HandshakeRequest.ChallengeResponse` as sent: empty, junk, or an HMAC under client `key`'s secret -/
-inductive RespRef | none | junk | hmac (key : Nat) (r : NRef)
+inductive RespRef | none | junk | hmac (key : Key) (r : NRef)
 deriving DecidableEq, Repr
 
 /-- the same after resolving the reference (`n = none`: a nonce the server never issued) -/
-inductive Resp | none | junk | hmac (key : Nat) (n : Option Nat)
+inductive Resp | none | junk | hmac (key : Key) (n : Option Nat)
 deriving DecidableEq, Repr
 
 /-- `HandshakeRequest.ClientID`: client number `k` of the table (`k ≥` table size: an id that does
@@ -60,7 +70,7 @@ inductive Event
   | ban (ip : Nat) | unban (ip : Nat)                       -- BruteForceProtector.BanIP / UnbanIP (or expiry of a ban)
   | bl (ip : Nat) | unbl (ip : Nat)                         -- IPManager.AddToBlacklist / RemoveFromBlacklist
   | refill (ip : Nat)                                       -- time passes for the anonymous-connection limiter
-  | exp (k : Nat) | del (k : Nat) | strip (k : Nat)         -- credentials expire / config deleted / no encrypted key
+  | exp (k : Nat) | del (k : Nat) | strip (k : Nat) (st : SecState)   -- credentials expire / config deleted / stored secret becomes `st`
 deriving DecidableEq, Repr
 
 def Event.conn? : Event → Option Nat
@@ -139,7 +149,7 @@ def Env.track (g : Env) (now nc : Nat) (e : Event) (r : RespObs) : Env :=
   | .refill _ => g
   | .exp k => if k < nc && !(g.cl k).deleted then { g with cl := upd g.cl k { g.cl k with ExpiresAt := some (now - 1) } } else g
   | .del k => if k < nc then { g with cl := upd g.cl k { g.cl k with deleted := true } } else g
-  | .strip k => if k < nc && !(g.cl k).deleted then { g with cl := upd g.cl k { g.cl k with hasKey := false } } else g
+  | .strip k st => if k < nc && !(g.cl k).deleted then { g with cl := upd g.cl k { g.cl k with secret := st } } else g
 
 /-! ## security package -/
 
@@ -164,9 +174,10 @@ def allowIP (s : Srv) (ip : Nat) : Srv × Bool :=
   if s.rlUsed ip < s.rlBurst then ({ s with rlUsed := upd s.rlUsed ip (s.rlUsed ip + 1) }, true) else (s, false)
 
 /-- `SecretKeyManager.VerifyResponse(config.SecretKeyEncrypted, challenge, response)` for client `k`:
-decrypt the stored key, compute the HMAC over the challenge, compare. -/
+decrypt the stored key (possible only for a `usable` stored secret; otherwise the answer is `false` whatever the
+response), compute the HMAC over the challenge, compare. -/
 def verifyResponse (cfg : ClientConfigT) (k n : Nat) (resp : Resp) : Bool :=
-  cfg.hasKey && resp == .hmac k (some n)
+  cfg.secret == .usable && resp == .hmac (.client k) (some n)
 
 /-! ## auth handler -/
 
@@ -195,7 +206,7 @@ def handleFirstConnection (s : Srv) (c ip : Nat) : Srv × HRes :=
 
 /-- `handleChallengePhase1` -/
 def handleChallengePhase1 (s : Srv) (c : Nat) (cfg : ClientConfigT) : Srv × HRes :=
-  if !cfg.hasKey then (s, .err)
+  if cfg.secret == .empty || cfg.secret == .legacy then (s, .err)      -- config.SecretKeyEncrypted == ""
   else (setCtl { s with nextNonce := s.nextNonce + 1 } c { getCtl s c with pending := some s.nextNonce }, .challenge s.nextNonce)
 
 /-- `handleChallengePhase2`: no pending challenge → failure; clear it; verify; only then bind the identity. -/
@@ -300,7 +311,7 @@ def stepCore (s : Srv) : Event → Srv × RespObs
   | .refill ip => ({ s with rlUsed := upd s.rlUsed ip 0 }, .na)
   | .exp _ => (s, .na)
   | .del _ => (s, .na)
-  | .strip _ => (s, .na)
+  | .strip _ _ => (s, .na)
 
 /-- one event: the server's transition, then the world's bookkeeping of what it saw -/
 def step (s : Srv) (e : Event) : Srv × RespObs :=
@@ -338,11 +349,12 @@ def run (s : Srv) : List Event → List StepObs
   | [] => []
   | e :: es => ⟨(step s e).2, obsState (step s e).1⟩ :: run (step s e).1 es
 
-/-- initial state: `ips` = address of each connection, `nc` pre-provisioned clients, limiter burst `burst` -/
-def Srv.init (now : Nat) (ips : List Nat) (nc burst : Nat) : Srv :=
+/-- initial state: `ips` = address of each connection, `nc` pre-provisioned clients (stored-secret state of client `k`:
+`secs[k]`, default usable), limiter burst `burst` -/
+def Srv.init (now : Nat) (ips : List Nat) (nc burst : Nat) (secs : List SecState := []) : Srv :=
   { now := now, nConns := ips.length, ipOf := fun c => ips.getD c 0, nIps := ips.foldl (fun m i => max m (i + 1)) 0,
     rlBurst := burst, nClients := nc,
-    env := { cl := fun _ => { ExpiresAt := some (now + ttl30) } } }
+    env := { cl := fun k => { ExpiresAt := some (now + ttl30), secret := secs.getD k .usable } } }
 
 end Tunnox.C03
 
